@@ -278,6 +278,9 @@ type clusterImpl struct {
 
 const clusterSettle = 6 * time.Second
 
+// halt locks granted in cluster histories expire after this long (`halt-expire` waits it out)
+const haltTTL = 60 * time.Millisecond
+
 func (m *clusterImpl) Close() {
 	for _, n := range m.nodes {
 		m.stop(n)
@@ -297,6 +300,15 @@ func (m *clusterImpl) stop(n *clusterNode) {
 	}
 	n.eng.closeFiles()
 	if n.eng.store != nil {
+		// the application's connections die with the process: their locks go away (Store.Close
+		// releases outstanding remote halt locks, which needs the write lock)
+		for _, db := range n.eng.store.DBs() {
+			for owner := uint64(1); owner <= 12; owner++ {
+				if gs := db.GuardSet(owner); gs != nil {
+					gs.Unlock()
+				}
+			}
+		}
 		_ = n.eng.store.Close()
 		n.eng.store, n.eng.db = nil, nil
 	}
@@ -321,7 +333,9 @@ func (m *clusterImpl) start(k int) string {
 		st.Client = n.client
 		st.ReconnectDelay = 3 * time.Millisecond
 		st.DemoteDelay = 20 * time.Millisecond
-		st.HaltLockMonitorInterval = time.Hour
+		st.HaltLockMonitorInterval = 15 * time.Millisecond
+		st.HaltAcquireTimeout = 400 * time.Millisecond
+		st.HaltLockTTL = time.Hour
 		return nil
 	}
 	role := "replica"
@@ -329,6 +343,9 @@ func (m *clusterImpl) start(k int) string {
 		role = "primary" // candidate
 	}
 	if err := n.eng.openStore(role); err != nil {
+		if m.c != nil {
+			m.c.Stats.Notes = append(m.c.Stats.Notes, "open: "+oneLine(err.Error()))
+		}
 		if n.srv != nil {
 			_ = n.srv.Close()
 			n.srv = nil
@@ -472,6 +489,27 @@ func (m *clusterImpl) Do(line string) string {
 			return "bad-op"
 		}
 		return m.start(k)
+	case "crash": // the node's process dies: nothing is closed or recovered; `up` restarts on what it left
+		if len(f) != 2 {
+			return "bad-op"
+		}
+		n, _ := m.node(f[1])
+		if n == nil || !n.up {
+			return "bad-op"
+		}
+		n.up = false
+		if n.srv != nil {
+			_ = n.srv.Close()
+			n.srv = nil
+		}
+		n.client.block(true)
+		m.svc.mu.Lock()
+		if m.svc.holder == n.leaser.idx {
+			m.svc.holder = -1 // the lease of a dead process runs out
+			m.svc.event("expire")
+		}
+		m.svc.mu.Unlock()
+		return n.eng.crashRestart("")
 	case "down":
 		if len(f) != 2 {
 			return "bad-op"
@@ -545,6 +583,69 @@ func (m *clusterImpl) Do(line string) string {
 			}
 		}
 		return "ok"
+	case "halt", "unhalt", "halt-expire", "halt-ttl": // halt <k> <id> | unhalt <k> <id> | halt-expire <p> | halt-http <p> <METHOD> <id> <own-of-node|other>
+		if len(f) < 2 {
+			return "bad-op"
+		}
+		n, _ := m.node(f[1])
+		if n == nil || !n.up {
+			return "bad-op"
+		}
+		if n.eng.db == nil {
+			if n.eng.db = n.eng.store.DB("db"); n.eng.db != nil {
+				n.eng.db.Now = func() time.Time { return fixedNow }
+			}
+		}
+		ctx, cancel := context.WithTimeout(context.Background(), 1500*time.Millisecond)
+		defer cancel()
+		switch f[0] {
+		case "halt":
+			if len(f) != 3 || n.eng.db == nil {
+				return "bad-op"
+			}
+			id, err := strconv.ParseInt(f[2], 10, 64)
+			if err != nil {
+				return "bad-op"
+			}
+			hl, err := n.eng.db.AcquireRemoteHaltLock(ctx, id)
+			if err != nil {
+				if errors.Is(err, litefs.ErrNoHaltPrimary) {
+					return "err primary"
+				}
+				return "err"
+			}
+			return fmt.Sprintf("ok pos=%d:%016x", uint64(hl.Pos.TXID), uint64(hl.Pos.PostApplyChecksum))
+		case "unhalt":
+			if len(f) != 3 || n.eng.db == nil {
+				return "bad-op"
+			}
+			id, err := strconv.ParseInt(f[2], 10, 64)
+			if err != nil {
+				return "bad-op"
+			}
+			if err := n.eng.db.ReleaseRemoteHaltLock(ctx, id); err != nil {
+				return "err"
+			}
+			return "ok"
+		case "halt-ttl": // halt-ttl <p> short|long: TTL of the halt locks this node grants from now on
+			if len(f) != 3 {
+				return "bad-op"
+			}
+			if f[2] == "short" {
+				n.eng.store.HaltLockTTL = haltTTL
+			} else {
+				n.eng.store.HaltLockTTL = time.Hour
+			}
+			return "ok"
+		case "halt-expire": // a short-lived halt lock of this node reaches its expiry and the monitor runs
+			if n.eng.db == nil {
+				return "bad-op"
+			}
+			time.Sleep(haltTTL + 60*time.Millisecond) // the node's halt-lock monitor runs every 15 ms
+			n.eng.store.EnforceHaltLockExpiration(ctx)
+			return "ok"
+		}
+		return "bad-op"
 	case "snap-arm", "snap-wait", "snap-release":
 		if len(f) != 2 {
 			return "bad-op"
@@ -623,6 +724,9 @@ func (m *clusterImpl) Do(line string) string {
 			m.c.Stats.Notes = append(m.c.Stats.Notes, "sync: "+why)
 		}
 		return "lag"
+	case "pause": // let in-flight stream frames land (e.g. a forwarded transaction echoed back to its author)
+		time.Sleep(40 * time.Millisecond)
+		return "ok"
 	case "roles":
 		var sb strings.Builder
 		for i, n := range m.nodes {
